@@ -134,3 +134,24 @@ package tls
 //@   ensures  result <==> ((c.flags&suiteECDHE != 0 ==> hs.ecdheOk && ite(c.flags&suiteECSign != 0, hs.ecSignOk, hs.rsaSignOk)) && (c.flags&suiteECDHE == 0 ==> hs.rsaDecryptOk) && !(hs.c.vers < VersionTLS12 && c.flags&suiteTLS12 != 0))
 //@   modifies nothing
 //@   terminates
+
+// ---------------------------------------------------------------- handshake_server.go: resumption gate (TLS <= 1.2)
+
+// "Check that we also support the ciphersuite from the session": the suite a resumed session
+// runs under is the one stored in the authentic ticket - and nothing else -, and it must be
+// enabled in the server's own configuration. Stated at the selectCipherSuite call of
+// checkForResumption: the candidate list is exactly [sessionState.cipherSuite] and the list
+// it is checked against is the server's configured list (Config.CipherSuites when set).
+// PARTIAL CLAIM (`claims at`): nothing else about checkForResumption is claimed (the decoder
+// of the session state is `modifies all`, see notes/tickets.md).
+//@ func (*Config).cipherSuites
+//@   requires c != nil
+//@   assume_pure defaultCipherSuites
+//@   ensures  c.CipherSuites != nil ==> same(result, c.CipherSuites)
+//@   modifies nothing
+//@ func (*serverHandshakeState).checkForResumption
+//@   claims at
+//@   requires hs != nil && hs.c != nil && hs.c.config != nil && sep(hs.c, hs) && sep(hs.c.config, hs) && sep(hs.c.config, hs.c)
+//@   at call selectCipherSuite assert len(arg0) == 1 && arg0[0] == hs.sessionState.cipherSuite && (c.config.CipherSuites != nil ==> same(arg1, c.config.CipherSuites))
+//@   maypanic
+//@   modifies all
